@@ -18,6 +18,14 @@ Op language (one op per line):
 * `reloadres <res> <rule>…` — `hotspot.LoadRulesOfResource(res, rules)` (empty list: the resource loses its rules)
 * `trace <id>` — `api.TraceError(entry, err)`; `exit <id> err` — `entry.Exit(base.WithError(err))`: a business error must
   not change anything about the unit the entry occupies or its release
+* `storm <res> <i|s> <G> <rounds>` ⇒ `lo=<a> hi=<b>` — real parallelism (the harness raises GOMAXPROCS for this op): per round a
+  fresh value, `G` goroutines call `api.Entry(res, value)` at once, after all have decided the admitted ones exit; then a
+  sequential probe admits entries for the value until the first refusal (at most `G + 8`) and exits them; `a`/`b` are the
+  least / greatest number the probe admitted over all rounds.  Whatever the schedule, the cells are back at 0 after the exits
+  (`cell_eq_live`, `returns_to_zero` hold for every interleaving), so the probe admits exactly what one sequential round
+  admits: the model runs one round sequentially and prints that number twice.  How many goroutines pass *during* a round is
+  not reported (the known check-then-act overshoot makes it schedule-dependent).  Must be the last op of its case; the
+  resource must carry concurrency rules only (a throttling rule would sleep on the single-threaded virtual clock).
 * `flowblock <res>` — a flow rule with threshold 0 on `res` (every entry there is blocked by the flow slot)
 * `entry <id> <res> [#batch] <val>… @key=val…` ⇒ `pass | block hot | block flow`
 * `exit <id>`
@@ -331,10 +339,60 @@ def stepOracle (s : OSt) (ts : List String) (line : String) : OSt × Option Stri
     | none => (s, some "bad-op")
   | _ => (s, some "bad-op")
 
+/-! ### `storm`: what the sequential probe of a round admits -/
+
+def stormVal (kind : String) : Val := if kind == "s" then Val.str "w0" else Val.int 1000000
+
+def stormOk (tcs : List Tc) (res : String) (fb : List String) : Bool :=
+  !fb.contains res && tcs.all fun t => !(t.rule.res == res) || t.rule.conc
+
+/-- sequential entries for `v` until the first refusal, at most `n` -/
+def probe (s : St) (res : String) (v : Val) : Nat → Nat → St × Nat
+  | 0, k => (s, k)
+  | n + 1, k =>
+    let r := entry s s!"probe{k}" res [v] []
+    if r.2 == Res.pass then probe r.1 res v n (k + 1) else (r.1, k)
+
+/-- one round run sequentially on the model: `g` entries, the admitted ones exit, then the probe -/
+def stormModel (s : St) (res : String) (v : Val) (g : Nat) : Nat :=
+  let s1 := (List.range g).foldl (fun s i => (entry s s!"storm{i}" res [v] []).1) s
+  let s2 := (List.range g).foldl (fun s i => exit s s!"storm{i}") s1
+  (probe s2 res v (g + 8) 0).2
+
+def stepModelW (s : St × Bool) (ts : List String) (line : String) : (St × Bool) × Option String :=
+  if s.2 then (s, some "bad-op") else
+  match ts with
+  | ["storm", res, kind, g, rounds] => match g.toNat?, rounds.toNat? with
+    | some g, some _ =>
+      if !stormOk s.1.tcs res s.1.fb || !s.1.live.isEmpty || !s.1.pend.isEmpty then (s, some "bad-op") else
+      let a := stormModel s.1 res (stormVal kind) g
+      ((s.1, true), some s!"lo={a} hi={a}")
+    | _, _ => (s, some "bad-op")
+  | _ => let r := stepModel s.1 ts line; ((r.1, false), r.2)
+
+/-- the property's own expectation for the probe: every cell of the value is back at 0, so each concurrency rule that
+    selects the value admits exactly its threshold (0 if negative); the probe stops at the smallest, or at its cap -/
+def stormClaim (s : OSt) (res : String) (v : Val) (g : Nat) : Nat :=
+  s.rules.foldl (fun acc o =>
+    let w := o.rule.sel res [v] []
+    if w = Val.nil then acc else min acc (o.rule.thrOf w).toNat) (g + 8)
+
+def stepOracleW (s : OSt × Bool) (ts : List String) (line : String) : (OSt × Bool) × Option String :=
+  if s.2 then (s, some "bad-op") else
+  match ts with
+  | ["storm", res, kind, g, rounds] => match g.toNat?, rounds.toNat?, resPart line with
+    | some g, some _, some got =>
+      if !stormOk (s.1.rules.map fun o => { rule := o.rule }) res s.1.fb || !s.1.live.isEmpty || !s.1.pend.isEmpty
+      then (s, some "bad-op") else
+      let a := stormClaim s.1 res (stormVal kind) g
+      ((s.1, true), some (if got == s!"lo={a} hi={a}" then "ok" else s!"bad expected lo={a} hi={a}"))
+    | _, _, _ => (s, some "bad-op")
+  | _ => let r := stepOracle s.1 ts line; ((r.1, false), r.2)
+
 def run (mode : String) : IO Unit :=
   match mode with
-  | "model" => loop ({} : St) stepModel
-  | "oracle" => loop ({} : OSt) stepOracle
+  | "model" => loop (({} : St), false) stepModelW
+  | "oracle" => loop (({} : OSt), false) stepOracleW
   | _ => IO.eprintln s!"C06: unknown mode {mode}"
 
 end Sentinel.Drv.C06
